@@ -30,6 +30,7 @@
 
    Everything that does not involve the decompressor is CompLayer's (SizesInfo, pos_in_stream,
    block_start_check, sync_inner, ubs_at, end_target, read_sizes_info). *)
+From MLA Require Import Limit.
 From MLA Require Import Base Stream CompLayer CompFailSafe.
 Open Scope N_scope.
 
@@ -317,6 +318,7 @@ Section CompS.
     end.
 
   Variable LIMIT : N.
+  Local Hint Extern 0 Limit => exact LIMIT : typeclass_instances.
   Definition scomp_initialize (inner_init : st S -> st S * res unit) (c : sreader) : sreader * res unit :=
     match s_state c with
     | SReady i =>
